@@ -16,7 +16,10 @@ RULE = ("real AdaptationManager (fresh per case) over hierarchies built with typ
         "restored per query); histories on one trait of one object (the same pool object assigned repeatedly, offers "
         "registered and conditional factories flipped in between; both slots name / name_ observed by identity after "
         "every step and compared with what adapt() answers now); late ABC registration (P.register(T) / @provides after the fact) "
-        "between repetitions of the same adapt / supports / trait queries, the line carrying the new issubclass table.  Exhaustive scope: 12 hierarchies on 3 types x every ordered sequence of <= 2 offers x "
+        "between repetitions of the same adapt / supports / trait queries, the line carrying the new issubclass table; "
+        "adaptee VALUES of awkward kinds (tuples of length 0/1/2/3, namedtuples, tuple / str subclasses, str / bytes with '%', "
+        "dicts, lists; objects whose __repr__ raises or is not a str only in calls that build no message) through the "
+        "manager and the module-level adapt / supports_protocol, the failure judged on the exact exception class.  Exhaustive scope: 12 hierarchies on 3 types x every ordered sequence of <= 2 offers x "
         "every factory table x all (source, target) (quick); 12 hierarchies on 4 types x <= 3 offers x failing-offer sets "
         "(thorough).  Plus CPython list.sort(cmp_to_key) with arbitrary non-transitive tables and heapq against the two "
         "CPython models.  A case is non-trivial when a query went through _adapt (factory log non-empty) or raised; "
@@ -109,6 +112,9 @@ def generate(rng, tier):
         yield L.random_history_case(rng)
     for i in range(n):
         yield L.random_late_case(rng)
+    yield from L.awkward_sweep()
+    for i in range(n // 2):
+        yield L.random_awkward_case(rng)
     for i in range(n // 10):
         yield L.random_case(rng, ordinal=True)
     for i in range(n // 30):
@@ -238,23 +244,37 @@ def run_impl(case):
             outs.append("-" if d is None else str(d))
             continue
         s_tok, t = w[-2], int(w[-1])
-        is_none = s_tok.endswith("n")
-        s = int(s_tok.rstrip("n"))
-        src = None if is_none else hier.instance(s)
+        s, is_none, flavour = L.parse_src(s_tok)
+        src = None if is_none else hier.instance(s, flavour)
+        vkind = L.value_kind(hier, s, is_none)
+        if vkind not in ("plain", "None"):
+            tags.add("value:" + vkind)
         src_type = type(src)
         target = hier.types[t]
         ctx.reset(src)
         # ----------------------------------------------------------- run the real code
         exc = None
         r = None
+        if kind in ("ga", "gd", "gs"):
+            # the module-level convenience functions, through the global manager
+            tags.add("module-level-call")
+            api_obj, kind = aapi, kind[1:]
+            old_mgr = aapi.get_global_adaptation_manager()
+            aapi.set_global_adaptation_manager(mgr)
+        else:
+            api_obj, old_mgr = mgr, None
         if kind in ("a", "d", "s"):
             dflt = L.Default()
-            if kind == "a":
-                r, exc = _guarded(lambda: mgr.adapt(src, target))
-            elif kind == "d":
-                r, exc = _guarded(lambda: mgr.adapt(src, target, dflt))
-            else:
-                r, exc = _guarded(lambda: mgr.supports_protocol(src, target))
+            try:
+                if kind == "a":
+                    r, exc = _guarded(lambda: api_obj.adapt(src, target))
+                elif kind == "d":
+                    r, exc = _guarded(lambda: api_obj.adapt(src, target, dflt))
+                else:
+                    r, exc = _guarded(lambda: api_obj.supports_protocol(src, target))
+            finally:
+                if old_mgr is not None:
+                    aapi.set_global_adaptation_manager(old_mgr)
             if isinstance(exc, _Timeout):
                 outs.append("timeout")
                 hits.append(_hit("nontermination", "%s did not return within %.0f s (factory calls so far: %d)" % (
@@ -270,6 +290,13 @@ def run_impl(case):
                 obs = _classify(ctx, src, r)
             outs.append(obs + " " + ctx.show_log())
             hs = _oracle_adapt(kind, q, hier, src, src_type, target, info, ctx, obs, deterministic, collide, tags)
+            if kind == "a" and exc is not None and not any(r_ == "!" for _, r_, _ in ctx.log):
+                # the failure of adaptation is reported by AdaptationError EXACTLY, whatever the adaptee's value is
+                from traits.adaptation.api import AdaptationError
+                if type(exc) is not AdaptationError:
+                    hs.append(_hit("failure-not-AdaptationError:%s-adaptee" % vkind,
+                                   "adapt(%s value, protocol) without default found no adapter but raised %s (%s) instead of "
+                                   "AdaptationError" % (vkind, type(exc).__name__, str(exc)[:80]), query=q))
             hits += _after_late(hs, late, tags)
             continue
         if kind == "t":
@@ -370,7 +397,10 @@ def _run_history(q, hier, offers, ftab, tags):
     pool_toks = w[5].split(",")
     steps = w[6:]
     target = hier.types[t]
-    pool = [None if tok.endswith("n") else hier.instance(int(tok)) for tok in pool_toks]
+    pool = []
+    for tok in pool_toks:
+        pi, pn, pf = L.parse_src(tok)
+        pool.append(None if pn else hier.instance(pi, pf))
     ctx = L.Ctx(ftab)
     if any(o[4] == "l" for o in offers):
         hier.install_module()
